@@ -1074,3 +1074,8 @@ M.contract('contracts.C11_settings:cwd_is_preserved', params=dict(directory=Str)
            ensures={'cd takes effect inside; the directory is restored afterwards (unless chdir itself fails)':
                     lambda directory, result: result[1] == directory and result[2] == result[0]},
            may_raise=(OSError,), raises_only=())
+
+
+# the settings travel in tuple-backed records (ProcessExecutionSettings, instruction environments, execution
+# configuration): C19's scan of their accessors carries C11 too
+M.shared_checks = list(getattr(M, 'shared_checks', [])) + [('C19', 'record-accessors')]
